@@ -64,6 +64,8 @@ SITES = {
         'multi0': [('Cdu', 'Ntot', 'Cu'), ('Cdu', 'Cdd', 'Cd', 'Cu')], 'multi1': [],
         'bos': ['Ntot', 'Nu'], 'fer': ['Cu', 'Cdu', 'Cd', 'Cdd']},
 }
+# charge-neutral bosonic operators usable as explicit operator strings (op_string=...)
+STRINGS = {'SpinHalf': ['Sigmaz', 'Sz'], 'Spin1': ['Sz'], 'Boson': ['N'], 'Fermion': ['N'], 'SpinHalfFermion': ['Ntot', 'Nu']}
 LATTICES = {'Chain': (1, 1), 'Ladder': (1, 2), 'Square': (2, 1), 'Triangular': (2, 1), 'Honeycomb': (2, 2)}  # dim, n_u
 
 
@@ -174,8 +176,35 @@ def gen_dx(rng, dim, Ls, bc_open, infinite, maxr=None):
         elif bc_open[a]:
             dx.append(rng.choice([d for d in range(-(Ls[a] - 1), Ls[a])]))
         else:
-            dx.append(rng.choice([d for d in range(-(Ls[a] - 1), Ls[a])]) if Ls[a] > 1 else 0)
+            hi = Ls[a] + 1 if rng.random() < 0.15 else Ls[a] - 1       # (periodic: shifts by a whole circumference and more)
+            dx.append(rng.choice([d for d in range(-hi, hi + 1)]) if Ls[a] > 1 else 0)
     return dx
+
+
+def pick_string(rng, sites, us, fermionic):
+    """an explicit op_string for operators on the unit-cell sites `us`: None (automatic), the name the automatic choice would
+    give ('JW' for two fermionic operators, 'Id' for bosonic ones), or a non-trivial bosonic string defined on all sites"""
+    r = rng.random()
+    if r < 0.55:
+        return None
+    if fermionic:
+        return 'JW'
+    if r < 0.7:
+        return 'Id'
+    types = set(s_['type'] for s_ in sites)
+    if len(types) > 1:
+        return 'Id'
+    return rng.choice(STRINGS[next(iter(types))])
+
+
+def finish_call(rng, c, exact, explicit):
+    """options every add_* call has: category (default / a name shared with other calls), plus_hc left at its default"""
+    r = rng.random()
+    if r < 0.25 and not c['fn'].startswith('add_exponentially'):
+        c['category'] = rng.choice(['cat0', 'cat0', 'cat1'])
+    if not c.get('plus_hc') and rng.random() < 0.5:
+        c.pop('plus_hc', None)
+    return c
 
 
 def gen_calls(rng, lat, dim, nu, sites, exact, explicit):
@@ -197,11 +226,17 @@ def gen_calls(rng, lat, dim, nu, sites, exact, explicit):
             ops = T['onsite0'] + (T['onsite1'] if level(sites[u]) else [])
             calls.append({'fn': 'add_onsite', 'strength': rand_strength(rng, Ls, exact, even), 'u': u, 'op': rng.choice(ops),
                           'plus_hc': plus_hc})
+            if rng.random() < 0.08:
+                # strength exactly zero (scalar or array): documented no-op, "can even accept non-defined opname"
+                calls[-1]['strength'] = enc(np.zeros(Ls if rng.random() < 0.5 else ()), rng.choice(['int', 'float', 'complex']))
+                calls[-1]['op'] = rng.choice([calls[-1]['op'], 'NoSuchOp'])
+                calls[-1]['plus_hc'] = False
         elif kind == 'coupling':
             u1, u2 = rng.randrange(nu), rng.randrange(nu)
             dx = gen_dx(rng, dim, Ls, bc_open, infinite)
-            if all(d == 0 for d in dx) and u1 == u2:
-                continue
+            wraps = [(not bc_open[a]) and not (a == 0 and infinite) for a in range(dim)]
+            if all((d % Ls[a] == 0) if wraps[a] else d == 0 for a, d in enumerate(dx)) and u1 == u2:
+                continue          # (an on-site "coupling": refused by add_coupling)
             pr = pick_pair(rng, sites, u1, u2)
             if pr is None:
                 continue
@@ -210,8 +245,23 @@ def gen_calls(rng, lat, dim, nu, sites, exact, explicit):
                 shape.append(Ls[a] - abs(dx[a]) if (bc_open[a] and not (a == 0 and infinite)) else Ls[a])
             if any(s <= 0 for s in shape):
                 continue
-            calls.append({'fn': 'add_coupling', 'strength': rand_strength(rng, shape, exact, even), 'u1': u1, 'op1': pr[0],
-                          'u2': u2, 'op2': pr[1], 'dx': dx, 'plus_hc': plus_hc})
+            big = any(wraps[a] and abs(dx[a]) >= Ls[a] for a in range(dim))
+            # (site-dependent strengths: the documented shift refers to the first coupling fitting into the lattice with open
+            # boundaries; none fits when |dx| >= L, so only uniform strengths there)
+            c = {'fn': 'add_coupling', 'strength': rand_strength(rng, shape, exact, even, allow_array=not big), 'u1': u1, 'op1': pr[0],
+                 'u2': u2, 'op2': pr[1], 'dx': dx, 'plus_hc': plus_hc}
+            fer = pr[0] in SITES[sites[u1]['type']]['fer']
+            ostr = pick_string(rng, sites, [u1, u2], fer)
+            if ostr is not None:
+                c['op_string'] = ostr
+            if rng.random() < 0.15:
+                c['strength_as_list'] = True     # (array_like strength: a nested list)
+            if dim == 1 and rng.random() < 0.3:
+                c['dx'] = dx[0]                  # (documented: for a 1D lattice a single int is fine)
+            elif (not exact) and rng.random() < 0.2 and all(abs(d) < Ls[a] for a, d in enumerate(dx) if wraps[a]):
+                # external flux through the periodic directions (coupling_strength_add_ext_flux); zero phase along open ones
+                c['flux'] = [round(rng.uniform(-3, 3), 3) if wraps[a] and rng.random() < 0.8 else 0. for a in range(dim)]
+            calls.append(c)
         elif kind == 'multi':
             us = [rng.randrange(nu) for _ in range(4)]
             if len(set(sites[u]['type'] for u in range(nu))) > 1:
@@ -236,8 +286,13 @@ def gen_calls(rng, lat, dim, nu, sites, exact, explicit):
                     fits = False
             if not fits:
                 continue
-            calls.append({'fn': 'add_multi_coupling', 'strength': rand_strength(rng, None, exact, even, allow_array=False),
-                          'ops': ops, 'plus_hc': plus_hc, 'switchLR': rng.choice([None, 'middle_i', 'middle_op'])})
+            c = {'fn': 'add_multi_coupling', 'strength': rand_strength(rng, None, exact, even, allow_array=False),
+                 'ops': ops, 'plus_hc': plus_hc, 'switchLR': rng.choice([None, 'middle_i', 'middle_op'])}
+            if not any(nm in T['fer'] for nm in names):
+                ostr = pick_string(rng, sites, us, False)
+                if ostr is not None:
+                    c['op_string'] = ostr
+            calls.append(c)
         elif kind == 'exp':
             if L < 2 and not infinite:
                 continue
@@ -255,11 +310,19 @@ def gen_calls(rng, lat, dim, nu, sites, exact, explicit):
                 if rng.random() < 0.15:
                     lam_enc = enc(np.array(complex(rng.choice([1, 2]), rng.choice([1, -1]))), 'complex')
             else:
-                lam_enc = enc(np.array(rng.uniform(-0.9, 0.9)), 'float')
+                def rl():
+                    if cplx:
+                        return rng.uniform(0.2, 0.9) * np.exp(1j * rng.uniform(-3.1, 3.1))
+                    return rng.uniform(-0.9, 0.9)
+                cplx = rng.random() < 0.35        # (complex decay rates: conjugated by plus_hc)
+                lam_enc = enc(np.array(rl()), 'complex' if cplx else 'float')
                 if rng.random() < 0.3:
-                    lam_enc = enc(np.array([rng.uniform(-0.9, 0.9) for _ in range(L)]), 'float')
+                    lam_enc = enc(np.array([rl() for _ in range(L)]), 'complex' if cplx else 'float')
             c = {'fn': 'add_exponentially_decaying_coupling', 'strength': rand_strength(rng, None, exact, even, allow_array=False),
                  'lambda': lam_enc, 'op_i': pr[0], 'op_j': pr[1], 'plus_hc': plus_hc}
+            ostr = pick_string(rng, sites, [u], pr[0] in SITES[sites[u]['type']]['fer'])
+            if ostr is not None:
+                c['op_string'] = ostr
             if rng.random() < 0.4 and L >= 2:
                 sub = sorted(rng.sample(range(L), rng.randint(1, L)))
                 c['subsites'] = sub
@@ -269,10 +332,16 @@ def gen_calls(rng, lat, dim, nu, sites, exact, explicit):
                 continue      # integer decay rates do not decay: handled only on finite systems
             if not infinite and rng.random() < 0.25 and not SITES[sites[u]['type']]['fer']:
                 sub = c.get('subsites') or list(range(L))
-                c = {'fn': 'add_exponentially_decaying_centered_terms', 'strength': c['strength'], 'lambda': c['lambda'],
-                     'op_i': pr[0], 'op_j': pr[1], 'i': rng.choice(sub), 'subsites': c.get('subsites'), 'plus_hc': plus_hc}
                 if pr[0] in SITES[sites[u]['type']]['fer']:
                     continue
+                # the central site: first / last / inner subsite, also counted from the end (documented: -L <= i < L)
+                ic = rng.choice([sub[0], sub[-1], rng.choice(sub)])
+                if rng.random() < 0.3:
+                    ic -= L
+                c = {'fn': 'add_exponentially_decaying_centered_terms', 'strength': c['strength'], 'lambda': c['lambda'],
+                     'op_i': pr[0], 'op_j': pr[1], 'i': ic, 'subsites': c.get('subsites'), 'plus_hc': plus_hc}
+                if ostr is not None:
+                    c['op_string'] = ostr
             calls.append(c)
         elif kind == 'local':
             # add_local_term: operators at explicit lattice positions, any order, possibly two on one site
@@ -310,11 +379,15 @@ def gen_calls(rng, lat, dim, nu, sites, exact, explicit):
                 j = i + rng.randint(1, 3)
                 if not infinite and j >= L:
                     continue
-                pr = rng.choice([p for p in T['pairs0'] if p[0] not in T['fer']] or [None])
-                if pr is None:
-                    continue
-                calls.append({'fn': 'add_coupling_term', 'strength': rand_strength(rng, None, exact, even, allow_array=False),
-                              'i': i, 'j': j, 'op_i': pr[0], 'op_j': pr[1], 'op_string': 'Id', 'plus_hc': plus_hc})
+                pr = rng.choice(T['pairs0'])
+                # (plain tensor product op_i (x) op_string ... (x) op_j, "does not handle Jordan-Wigner strings": any string)
+                c = {'fn': 'add_coupling_term', 'strength': rand_strength(rng, None, exact, even, allow_array=False),
+                     'i': i, 'j': j, 'op_i': pr[0], 'op_j': pr[1], 'plus_hc': plus_hc}
+                if pr[0] in T['fer']:
+                    c['op_string'] = 'JW'
+                elif rng.random() < 0.7:
+                    c['op_string'] = rng.choice(['Id', 'Id'] + STRINGS[sites[0]['type']])
+                calls.append(c)
             else:
                 cand = [m for m in T['multi0'] if not any(x in T['fer'] for x in m)]
                 if not cand:
@@ -325,10 +398,15 @@ def gen_calls(rng, lat, dim, nu, sites, exact, explicit):
                     ijkl.append(ijkl[-1] + rng.randint(1, 2))
                 if not infinite and ijkl[-1] >= L:
                     continue
+                strs = ['Id'] * (len(names) - 1)
+                if rng.random() < 0.4:
+                    strs = [rng.choice(['Id'] + STRINGS[sites[0]['type']]) for _ in strs]
+                sw = rng.choice(['middle_i', 'middle_op', None, 'int'])
+                if sw == 'int':
+                    sw = rng.randint(ijkl[0], ijkl[-1])          # (documented: any site ijkl[0] <= switchLR <= ijkl[-1])
                 calls.append({'fn': 'add_multi_coupling_term', 'strength': rand_strength(rng, None, exact, even, allow_array=False),
-                              'ijkl': ijkl, 'ops': list(names), 'op_string': ['Id'] * (len(names) - 1), 'plus_hc': plus_hc,
-                              'switchLR': rng.choice(['middle_i', 'middle_op'])})
-    return calls
+                              'ijkl': ijkl, 'ops': list(names), 'op_string': strs, 'plus_hc': plus_hc, 'switchLR': sw})
+    return [finish_call(rng, c, exact, explicit) for c in calls]
 
 
 def pick_pair(rng, sites, u1, u2):
@@ -348,7 +426,7 @@ def manual_hc_variant(spec):
     calls = []
     changed = False
     for c in out['calls']:
-        if not c.get('plus_hc') or c['fn'] not in ('add_onsite', 'add_coupling', 'add_multi_coupling'):
+        if not c.get('plus_hc') or c['fn'] not in ('add_onsite', 'add_coupling', 'add_multi_coupling') or c.get('flux') is not None:
             calls.append(c)
             continue
         changed = True
@@ -364,7 +442,7 @@ def manual_hc_variant(spec):
             h['u1'], h['u2'] = c['u2'], c['u1']
             h['op1'] = SITES[out['sites'][c['u2']]['type']]['hc'][c['op2']]
             h['op2'] = SITES[out['sites'][c['u1']]['type']]['hc'][c['op1']]
-            h['dx'] = [-d for d in c['dx']]
+            h['dx'] = [-d for d in c['dx']] if isinstance(c['dx'], list) else -c['dx']
         else:
             h['ops'] = [[SITES[out['sites'][u]['type']]['hc'][o], dx, u] for o, dx, u in reversed(c['ops'])]
             # the base cell of a multi coupling is the position of the first operator with dx = 0: keep dx relative
@@ -388,7 +466,10 @@ def gen_family(rng, fid):
         calls = gen_calls(rng, lat, dim, nu, sites, exact, explicit)
         if not calls:
             continue
-        spec = {'lattice': lat, 'sites': sites, 'explicit_plus_hc': explicit, 'calls': calls}
+        spec = {'lattice': lat, 'sites': sites, 'explicit_plus_hc': explicit, 'calls': calls, 'psi_seed': rng.randrange(10 ** 6)}
+        if any(c['fn'] == 'add_local_term' for c in calls) and rng.random() < 0.6:
+            # shift of TermList.from_lattice_locations: whole unit cells along an infinite direction, else the explicit zero vector
+            spec['tl_shift'] = [rng.choice([-1, 1, 2]) if lat['bc_MPS'] == 'infinite' else 0] + [0] * dim
         N = nsites * nwin
         ring = nsites // lat['Ls'][0]          # MPO.extract_segment wants whole rings
         if lat['bc_MPS'] == 'finite' and nsites >= 2 * ring and rng.random() < 0.6:
@@ -457,7 +538,7 @@ def gen_predefined(rng, models, per_class):
                 params.update(geo)
                 params.update(cv)
                 c = {'kind': 'predefined', 'module': modname, 'cls': cls, 'params': params, 'family': 'P%d' % fid,
-                     'variant': str(cv.get('conserve')), 'nwin': 2}
+                     'variant': str(cv.get('conserve')), 'nwin': 2, 'psi_seed': rng.randrange(10 ** 6)}
                 L = params['L']
                 if rng.random() < 0.5:
                     c['segment'] = 'auto'
@@ -689,6 +770,149 @@ def check_termlist(r, geo, dense, Href, Hc, mats, tol):
     return problems, far
 
 
+def check_extra(r, dense, Href, Href_bond, mats, tol, hermitian, scale):
+    """oracle for the accessors exported by export_extra of the runner: wave-function exporters, ExactDiag with charge_sector /
+    mps_to_full / matvec, bond energies, TermList and container accessors"""
+    problems = []
+    finite, L, N = r['finite'], r['L'], r['N']
+    dims = r['dims']
+    if 'psi' in r and finite:
+        ps = r['psi']
+        v = np.zeros(dims, dtype=complex)
+        v[tuple(ps['p1'])] += complex(*ps['alpha']) if ps['p2'] is not None else 1.0
+        if ps['p2'] is not None:
+            v[tuple(ps['p2'])] += complex(*ps['beta'])
+        inv = [np.argsort(np.array(r['perm'][k % L])) for k in range(N)]
+        v_conv = v[np.ix_(*inv)].reshape(-1)
+        v = v.reshape(-1)
+        for nm, ref, what in (('wf_noundo', v, 'get_full_wavefunction(psi, undo_sort_charge=False)'),
+                              ('wf_undo', v_conv, 'get_full_wavefunction(psi)')):
+            if nm in mats:
+                d = maxdiff(mats[nm], ref)
+                if d > 1e-10:
+                    problems.append(('C10:' + nm, '%s differs from the amplitudes of the state (two product states, amplitudes %r, %r) by %.3e'
+                                     % (what, ps['alpha'], ps['beta'], d)))
+        E = complex(np.vdot(v, Href @ v))
+        if 'E_mpo' in mats and abs(complex(mats['E_mpo']) - E) > tol:
+            problems.append(('C10:E_mpo', 'H_MPO.expectation_value(psi) = %r, <psi|H|psi> of the reference operator = %r' % (complex(mats['E_mpo']), E)))
+        if 'ed_matvec' in mats:
+            d = maxdiff(mats['ed_matvec'], Href @ v)
+            if d > tol:
+                problems.append(('C10:ed_matvec', 'ExactDiag.matvec(mps_to_full(psi)) differs from H|psi> by %.3e' % d))
+        if 'bond_energies' in mats and 'H_bond_none' in r:
+            Eb = np.asarray(mats['bond_energies']).reshape(-1)
+            exp_ = []
+            for j in range(1, L):
+                if r['H_bond_none'][j]:
+                    exp_.append(0.0)
+                    continue
+                hb = mats['Hb/%d' % j]
+                M_ = np.kron(np.kron(np.eye(int(np.prod(dims[:j - 1]))), hb), np.eye(int(np.prod(dims[j + 1:]))))
+                exp_.append(complex(np.vdot(v, M_ @ v)))
+            if len(Eb) != L - 1 or float(np.max(np.abs(Eb - np.array(exp_)))) > tol:
+                problems.append(('C10:bond_energies', 'bond_energies(psi) = %r, expected <psi|H_bond[i+1]|psi> = %r' % (Eb.tolist(), exp_)))
+            elif abs(np.sum(Eb) - complex(np.vdot(v, Href_bond @ v))) > tol * L:
+                problems.append(('C10:bond_energies', 'sum of bond_energies(psi) differs from <psi|H|psi>'))
+        # ExactDiag(charge_sector=...): the block of H on the basis states of that total charge
+        if 'sector' in r and ('H_ed_sector' in mats or 'H_ed_sector_bonds' in mats):
+            mod = np.array(r['qmod'])
+            tot = np.zeros([int(np.prod(dims)), len(mod)], dtype=np.int64)
+            idx = np.indices(dims).reshape(len(dims), -1)
+            for k in range(N):
+                tot += np.array(r['qflat'][k], dtype=np.int64).reshape(dims[k], len(mod))[idx[k]]
+            tot = np.where(mod > 1, tot % np.where(mod > 1, mod, 1), tot)
+            sec = np.array(r['sector'])
+            sec = np.where(mod > 1, sec % np.where(mod > 1, mod, 1), sec)
+            mask = np.all(tot == sec[None, :], axis=1) if len(mod) else np.ones(len(tot), dtype=bool)
+            block = Href[np.ix_(mask, mask)]
+            for nm, sfx in (('H_ed_sector', ''), ('H_ed_sector_bonds', '_b')):
+                if nm not in mats:
+                    continue
+                Hs_ = mats[nm]
+                bad = None
+                if Hs_.shape != block.shape:
+                    bad = 'has shape %s, the sector %r holds %d states' % (Hs_.shape, r['sector'], int(mask.sum()))
+                elif abs(np.trace(Hs_) - np.trace(block)) > tol * max(1, len(block)) or abs(np.linalg.norm(Hs_) - np.linalg.norm(block)) > tol * max(1, len(block)):
+                    bad = 'has a different trace / norm than the block of the reference operator'
+                elif hermitian and float(np.max(np.abs(np.linalg.eigvalsh(0.5 * (Hs_ + Hs_.conj().T)) - np.linalg.eigvalsh(block)))) > 1e-8 * scale:
+                    bad = 'has a different spectrum than the block of the reference operator'
+                else:
+                    sp, sh = mats.get('sector_psi' + sfx), mats.get('sector_Hpsi' + sfx)
+                    if sp is not None and sh is not None:
+                        if abs(np.linalg.norm(sp) - 1.0) > 1e-10:
+                            bad = 'mps_to_full(psi) has norm %r in the sector of psi' % float(np.linalg.norm(sp))
+                        elif abs(np.vdot(sp, sh) - E) > tol or abs(np.linalg.norm(sh) - np.linalg.norm((Href @ v)[mask])) > tol:
+                            bad = '<psi|H|psi> or |P H psi| in the sector differ from the reference operator'
+                if bad:
+                    problems.append(('C10:' + nm, 'ExactDiag(charge_sector=%r) built from %s: full_H %s' % (r['sector'], 'bonds' if sfx else 'the MPO', bad)))
+    acc = r.get('accessors')
+    if acc and 'termlist' in r:
+        tl = r['termlist']
+        sites_ = [k for term, _ in tl for _, k in term]
+        spans = [max(k for _, k in term) - min(k for _, k in term) for term, _ in tl]
+
+        def same_list(a, b, fac=1.0, sh=0):
+            if len(a) != len(b):
+                return False
+            for (ta, sa), (tb, sb) in zip(a, b):
+                if [[o, k + sh] for o, k in ta] != [list(x) for x in tb] or abs(complex(*sa) * fac - complex(*sb)) > 1e-12 * max(1.0, abs(complex(*sa) * fac)):
+                    return False
+            return True
+        if acc['tl_max_range'] != (max(spans) if spans else 0):
+            problems.append(('C10:TermList.max_range', 'TermList.max_range() = %r, terms span %r' % (acc['tl_max_range'], max(spans) if spans else 0)))
+        if acc['tl_limits'] is not None and acc['tl_limits'] != [min(sites_), max(sites_)]:
+            problems.append(('C10:TermList.limits', 'TermList.limits() = %r, sites of the terms: %d..%d' % (acc['tl_limits'], min(sites_), max(sites_))))
+        if not same_list(tl, acc['tl_shift'], sh=L):
+            problems.append(('C10:TermList.shift', 'TermList.shift(L) is not the list with L added to every site'))
+        if not same_list(tl, acc['tl_mul'], fac=2.5):
+            problems.append(('C10:TermList.__mul__', 'TermList * 2.5 is not the list with every strength multiplied by 2.5'))
+        if not same_list(tl, acc['tl_iter']):
+            problems.append(('C10:TermList.__iter__', 'iterating a TermList does not give zip(terms, strength)'))
+        # ranges of the containers (H_MPO.max_range is taken from them)
+        rng_c = [e_[3] - e_[0] for e_ in (r.get('coupling') or [])] + [max(k for k, _ in t['word']) - min(k for k, _ in t['word']) for t in (r.get('multi') or [])]
+        if acc['ct_max_range'] != (max(rng_c) if rng_c else 0):
+            problems.append(('C10:CouplingTerms.max_range', 'max_range() of the coupling terms = %r, the stored terms span %r'
+                             % (acc['ct_max_range'], max(rng_c) if rng_c else 0)))
+        if acc['ot_max_range'] != 0:
+            problems.append(('C10:OnsiteTerms.max_range', 'OnsiteTerms.max_range() = %r' % acc['ot_max_range']))
+        if acc.get('exp_iadd') != r.get('exp'):
+            problems.append(('C10:ExponentiallyDecayingTerms.__iadd__', 'an empty ExponentiallyDecayingTerms += the terms of the model does not hold the same terms'))
+        if 'termlist_exp_infinite' in acc:
+            cut = acc['exp_cutoff']
+            want, slack = {}, set()
+            for t in r['exp']['exp']:
+                lam = [complex(*x) for x in t['lambda']]
+                for i in t['subsites_start']:
+                    pref = complex(*t['strength']) * lam[i]
+                    cell = 0
+                    while abs(pref) >= cut * 1e-3 and cell < 400:
+                        for q in t['subsites']:
+                            j = q + cell * L
+                            if j <= i:
+                                continue
+                            key = (t['op_i'], i, t['op_j'], j)
+                            if abs(pref) >= cut * (1 + 1e-9):
+                                want[key] = want.get(key, 0) + pref
+                            elif abs(pref) > cut * (1 - 1e-9):
+                                slack.add(key)
+                            pref = pref * lam[q]
+                        cell += 1
+            got = {}
+            for term, st in acc['termlist_exp_infinite']:
+                key = (term[0][0], term[0][1], term[1][0], term[1][1])
+                got[key] = got.get(key, 0) + complex(*st)
+            bad = [k for k in set(want) | set(got) if k not in slack and abs(want.get(k, 0) - got.get(k, 0)) > 1e-12 * max(1.0, abs(want.get(k, 0)))]
+            if bad:
+                k = sorted(bad)[0]
+                problems.append(('C10:ExponentiallyDecayingTerms.to_TermList:infinite', 'exp_decaying_terms.to_TermList(cutoff=%g, bc="infinite"): term %r has '
+                                 'strength %r, expected %r (%d terms differ)' % (cut, k, got.get(k), want.get(k), len(bad))))
+        if 'tl_from_lattice' in acc and r.get('tl_from_lattice_expected') is not None:
+            if not same_list(r['tl_from_lattice_expected'], acc['tl_from_lattice']):
+                problems.append(('C10:TermList.from_lattice_locations', 'TermList.from_lattice_locations(...) = %r, expected %r'
+                                 % (acc['tl_from_lattice'], r['tl_from_lattice_expected'])))
+    return problems
+
+
 def zero_hamiltonian(case, r):
     """Is the operator the add_* calls of a specification stand for exactly zero?  True / False / a text (undecided).
     True needs: every term whose left-most operator lies in the first unit cell fits into the dense window, the dense sum of
@@ -879,7 +1103,27 @@ def check_case(ctx, case, r, fam_store):
         what='the original MPO after H.copy().sort_legcharges()')
     cmp('H_enlarged', Href, what='MPO after enlarge_mps_unit_cell(2)')
     cmp('H_enlarged_bond', Href_bond, what='H_bond after enlarge_mps_unit_cell(2)')
-    if 'termlist' in r and 'onsite' in r:
+    plain_strings = set(r.get('termlist_strings') or []) <= {'Id', 'JW'}
+    cmp('H_ed_sparse', Href, what='ExactDiag(model, sparse=True).build_full_H_from_mpo')
+    cmp('H_bond_from_MPOModel_cls', Href_bond, what='NearestNeighborModel.from_MPOModel(model).H_bond')
+    cmp('H_enlarged3', Href, what='MPO after enlarge_mps_unit_cell(3)')
+    cmp('H_enlarged3_bond', Href_bond, what='H_bond after enlarge_mps_unit_cell(3)')
+    if r.get('segment_enlarge_L') == N:
+        cmp('H_segment_enlarge', Href, what='MPO of extract_segment(enlarge=%d)' % (N // r['L']))
+        cmp('H_segment_enlarge_bond', Href_bond, what='H_bond of extract_segment(enlarge=%d)' % (N // r['L']))
+    elif 'segment_enlarge_L' in r:
+        problems.append(('C10:H_segment_enlarge', 'extract_segment(enlarge=%d) has %d sites, expected %d' % (N // r['L'], r['segment_enlarge_L'], N)))
+    if is_spec and (r.get('accessors') or {}).get('tl_from_lattice') is not None:
+        sh_ = case['spec'].get('tl_shift') or [0] * (geo.dim + 1)
+        r['tl_from_lattice_expected'] = [
+            [[[o, geo.mps_index([x_ + d_ for x_, d_ in zip(idx[:-1], sh_[:-1])], idx[-1] + sh_[-1])] for o, idx in c_['term']],
+             [float(np.real(O.decode_strength(c_['strength']))), float(np.imag(O.decode_strength(c_['strength'])))]]
+            for c_ in case['spec']['calls'] if c_['fn'] == 'add_local_term']
+    problems.extend(check_extra(r, dense, Href, Href_bond, mats, tol, hermitian, scale))
+    if 'termlist' in r and 'onsite' in r and not plain_strings:
+        # a TermList stores no operator strings (documented): a model with other strings than Id / JW has no faithful term list
+        ctx.cov['termlist_skipped_nontrivial_strings'] = ctx.cov.get('termlist_skipped_nontrivial_strings', 0) + 1
+    if 'termlist' in r and 'onsite' in r and plain_strings:
         tl_problems, far = check_termlist(r, geo, dense, Href, Hc, mats, tol)
         problems.extend(tl_problems)
         ctx.count('termlist', [case.get('spec') or [case['module'], case['cls'], case['params']], case.get('variant')],
@@ -905,6 +1149,15 @@ def check_case(ctx, case, r, fam_store):
         ok, why = same_operator(mats['H_group'], Href)
         if not ok:
             problems.append(('C10:H_group', 'MPO after group_sites(2) ' + why))
+    for nm_, what_ in (('H_group3', 'MPO after group_sites(3)'), ('H_group_given', 'MPO after group_sites(2, grouped_sites=...)')):
+        if nm_ in mats:
+            ok, why = same_operator(mats[nm_], Href)
+            if not ok:
+                problems.append(('C10:' + nm_, what_ + ' ' + why))
+    if 'H_group3_bond' in mats and finite:
+        ok, why = same_operator(mats['H_group3_bond'], Href_bond)
+        if not ok:
+            problems.append(('C10:H_group3_bond', 'H_bond after group_sites(3) ' + why))
     if 'H_group_bond' in mats and finite:
         # (on a window of an infinite system the bonds of grouped sites cut through the edge groups: not compared)
         ok, why = same_operator(mats['H_group_bond'], Href_bond)
@@ -938,7 +1191,8 @@ def check_case(ctx, case, r, fam_store):
                     cand['string-nohc'] = O.dense_from_containers(dict(r, explicit_plus_hc=False), dense)[0]
                 cand['nostring-nohc'] = Hl
         for nm, undo in (('H_np', True), ('H_np_noundo', False), ('H_sp', True), ('H_sp_noundo', False),
-                         ('H_np_mpomodel', True), ('H_np_mpomodel_noundo', False), ('H_np_nnmodel', True)):
+                         ('H_np_mpomodel', True), ('H_np_mpomodel_noundo', False), ('H_np_nnmodel', True),
+                         ('H_np_nnmodel_noundo', False), ('H_np_both_from_bond', True), ('H_np_both_from_mpo', True)):
             if nm not in mats:
                 continue
             ref = Hconv if undo else Href
@@ -979,6 +1233,11 @@ def check_case(ctx, case, r, fam_store):
             d = maxdiff(mats['H_segment'], Hs)
             if d > tol:
                 problems.append(('C10:H_segment', 'MPO of extract_segment(%d, %d) differs from the terms inside the segment by %.3e' % (a, b, d)))
+            if 'H_ed_from_infinite' in mats:
+                d = maxdiff(mats['H_ed_from_infinite'], Hs)
+                if d > tol:
+                    problems.append(('C10:H_ed_from_infinite', 'ExactDiag.from_infinite_model(first=%d, last=%d) differs from the terms '
+                                     'inside the segment by %.3e' % (a, b, d)))
             if 'H_segment_bond' in mats:
                 corr = 0
                 # bonds of a segment: on-site terms of the edge sites that are not boundary sites of a finite chain count half
@@ -1239,7 +1498,7 @@ def gen_termlist_specs(rng, n):
             for c in calls:
                 if c['fn'] == 'add_multi_coupling' and rng.random() < 0.5 and (infinite or lat['bc'] == 'periodic'):
                     # site-dependent strength (one entry per cell along the chain)
-                    c['strength'] = rand_strength(rng, Ls, exact, exact and explicit and not c['plus_hc'])
+                    c['strength'] = rand_strength(rng, Ls, exact, exact and explicit and not c.get('plus_hc'))
             spec = {'lattice': lat, 'sites': sites, 'explicit_plus_hc': explicit, 'calls': calls}
             cases.append({'kind': 'spec', 'spec': spec, 'nwin': nwin, 'family': 'L%d' % n_, 'variant': 'base', 'exact': exact,
                           'want': ['termlist'], 'tie': 'termlist'})
